@@ -1182,7 +1182,7 @@ func execNet(t *testing.T, raw json.RawMessage, res *Result, focus string) {
 				// without any fault an operation may only fail for a reason the user is told about and can act on
 				msg := cr.Err.Error() + "\n" + cr.Stdout
 				expected := false
-				for _, ok := range []string{"failed to fetch some refs", "failed to push some refs", "non-fast-forward", "rejected", "nothing to create ref", "table not found", "try fetching it", "wrgl fetch tables", "is not a branch name", "can't find branch", "can't find commit", "conflict", "nothing to push", "does not match any", "remote rejected", "unrelated", "common ancestor", "no upstream", "Everything up-to-date", "primary key differs", "can't merge", "shallow", "no refspec specified", "has no parent"} {
+				for _, ok := range []string{"failed to fetch some refs", "failed to push some refs", "non-fast-forward", "rejected", "nothing to create ref", "table not found", "try fetching it", "wrgl fetch tables", "is not a branch name", "can't find branch", "can't find commit", "conflict", "nothing to push", "does not match any", "remote rejected", "unrelated", "common ancestor", "no upstream", "Everything up-to-date", "primary key differs", "can't merge", "shallow", "no refspec specified", "has no parent", "/dev/tty"} {
 					if strings.Contains(msg, ok) {
 						expected = true
 					}
